@@ -55,6 +55,9 @@ func (c10) Gen(r *sim.Rand, tier string, run uint64) *sim.Scenario {
 	if r.Chance(1, 6) {
 		sc.Cfg["goodsum"] = 1 // the header checksum and its complement are correct, as in a real dump
 	}
+	if r.Chance(1, 6) {
+		sc.Cfg["literal"] = 1 // the ROM object is a composite literal &snes.ROM{Contents: image}, not made by NewROM
+	}
 	if r.Chance(1, 8) {
 		// the caller points the public HeaderOffset field somewhere else (a header it wants
 		// parsed from the HiROM position, say): the bus streams are LoROM windows regardless
@@ -868,8 +871,9 @@ func (c c10) Exec(sc *sim.Scenario, env *sim.Env) (viol *sim.Violation) {
 		name = "" // a legal argument too
 	}
 	rom, err := snes.NewROM(name, w.img)
-	if err != nil || rom == nil {
+	if err != nil || rom == nil || sc.C("literal") != 0 {
 		rom = &snes.ROM{Name: name, Contents: w.img}
+		st.ProbeIf(sc.C("literal") != 0, "rom_is_a_composite_literal")
 	}
 	env.ObsStr(rom.Name)
 	if h := sc.C("hdroff"); h != 0 {
@@ -895,6 +899,23 @@ func (c c10) Exec(sc *sim.Scenario, env *sim.Env) (viol *sim.Violation) {
 				}
 			}
 			st.Probe("contents_reassigned")
+			continue
+		case "grow":
+			k := int(op.Arg(0))
+			if k < 1 || k > 2 || len(w.img) > 0x380000 {
+				continue
+			}
+			extra := sim.NewRand(uint64(op.Arg(1)) + 1).Bytes(k << 15)
+			rom.Contents = append(rom.Contents, extra...)
+			w.img = rom.Contents
+			w.model = append(w.model, extra...)
+			nb = len(w.img) >> 15
+			for _, id := range sortedKeys(streams) {
+				if s := streams[id]; !s.isW {
+					s.skip = true // append may have moved the array: what an older reader sees is not defined
+				}
+			}
+			st.Probe("image_grown")
 			continue
 		case "open_r", "open_w":
 			id, addr := op.Arg(0), uint32(op.Arg(1))&0xFFFFFF
